@@ -98,6 +98,8 @@ func c07Run(b *core.B) {
 		truth bool
 	}
 	vals := []kv{{"nope_unknown", false}, {"nilvar", false},
+		// a path that starts at a name nobody set is as unknown as the name, however long it is
+		{"nope_unknown.Owner", false}, {"nope_unknown.Owner.Admin", false}, {"nope_unknown.A.B.C.D", false}, {"nilvar.Owner.Admin", false},
 		// values written down in the template itself: what is true of 0 in a variable is true of the literal
 		{"0", true}, {"0.0", true}, {"1", true}, {`""`, false}, {`"a"`, true}, {"``", false}, {"true", true}, {"false", false}, {"nil", false}, {"(0)", true}, {"(false)", false}}
 	for i, k := range Kinds {
@@ -115,7 +117,7 @@ func c07Run(b *core.B) {
 			if !mine() {
 				continue
 			}
-			if f.name == "if-in-fn" && (v.expr == "v_nil" || v.expr == "nilvar" || v.expr == "nope_unknown" || v.expr == "nil") {
+			if f.name == "if-in-fn" && (strings.HasPrefix(v.expr, "nope_unknown.") || strings.HasPrefix(v.expr, "nilvar.") || v.expr == "v_nil" || v.expr == "nilvar" || v.expr == "nope_unknown" || v.expr == "nil") {
 				continue
 			}
 			if strings.Contains(v.expr, "[") && strings.Contains(f.tmpl, "V && V") {
